@@ -369,6 +369,135 @@ Definition v_range (t : text) (m : vmotion) (count : option nat) (i : nat) : ora
 Definition run_op_v (k : opk) (ins : text) (t : text) (m : vmotion) (count : option nat) (i : nat) : ostate :=
   apply_op k ins (mkO t i None) (v_range t m count i).
 
+(** ** the case operators g~ gu gU over a range, and the one-key commands ~ and r: the text keeps its length and its lines *)
+Inductive casek := CToggle | CUpper | CLower.
+Definition is_upper_c (c : N) : bool := (65 <=? c) && (c <=? 90).
+Definition is_lower_c (c : N) : bool := (97 <=? c) && (c <=? 122).
+Definition case_c (k : casek) (c : N) : N :=
+  match k with
+  | CToggle => if is_upper_c c then c + 32 else if is_lower_c c then c - 32 else c
+  | CUpper => if is_lower_c c then c - 32 else c
+  | CLower => if is_upper_c c then c + 32 else c
+  end.
+Definition map_range (f : N -> N) (t : text) (lo hi : nat) : text :=
+  firstn lo t ++ map f (slice t lo hi) ++ skipn hi t.
+
+(** the operator over what a motion (or a doubled operator: whole lines) covers; the register is not touched *)
+Definition apply_case (k : casek) (s0 : ostate) (r : orange) : ostate :=
+  let t := o_text s0 in
+  match r with
+  | RNone => s0
+  | RFail p => mkO t p (o_reg s0)
+  | RChar lo0 hi0 =>
+    let hi := Nat.min hi0 (length t) in
+    let lo := Nat.min lo0 hi in
+    mkO (map_range (case_c k) t lo hi) (settle_line t lo) (o_reg s0)
+  | RLines a b keepcol =>
+    let lo := line_start_from t (Nat.min a (length t)) in
+    let e := line_end t (Nat.min b (length t)) in
+    (* the doubled operator ([keepcol]) first takes the cursor to the first non-blank of the last line, and the cursor
+       ends at the start of what lies between: its own place, or that first non-blank when it is on the same line and
+       further left.  A promoted motion starts where its range starts. *)
+    let cur := Nat.min (o_cur s0) (length t) in
+    let c := if keepcol
+             then (if Nat.eqb (line_start_from t cur) (line_start_from t (Nat.min b (length t)))
+                   then Nat.min cur (first_nb_of_line t cur) else cur)
+             else Nat.min a (length t) in
+    mkO (map_range (case_c k) t lo e) c (o_reg s0)
+  end.
+(** an exclusive motion that did not move (h 0 ^ in column one) leaves an empty region; the case operators still run on
+    it ('cpoptions' without E), and Vim's [op_tilde] steps its end back: in column one of the first line that is
+    impossible and one character is taken, in column one of a later line the end lands on the line before and the rest
+    of the cursor's line - all of it - is taken *)
+Definition case_empty (k : casek) (t : text) (i : nat) : ostate :=
+  let s := line_start_from t i in
+  let e := line_end t i in
+  if negb (Nat.eqb i s) then mkO t i None
+  else if Nat.eqb s 0 then (if Nat.eqb s e then mkO t i None else mkO (map_range (case_c k) t i (S i)) i None)
+  else mkO (map_range (case_c k) t s e) i None.
+Definition run_case (k : casek) (t : text) (m : motion) (count : nat) (i : nat) : ostate :=
+  match op_range OpDelete t m count i with
+  | RNone => match m with
+             | MLeft | MLineStart | MFirstNonBlank => case_empty k t i
+             | _ => mkO t i None
+             end
+  | r => apply_case k (mkO t i None) r
+  end.
+Definition run_case_lines (k : casek) (t : text) (count : nat) (i : nat) : ostate :=
+  let count := Nat.max count 1 in
+  if Nat.ltb 1 count && last_line_at t i then mkO t i None
+  else apply_case k (mkO t i None) (RLines i (nth_line_end t i (count - 1)) true).
+
+(** [count]~ : that many characters from the cursor, as many as the line has; the cursor goes behind them, as far as a
+    normal-mode cursor goes.  On an empty line nothing happens. *)
+Definition run_tilde (t : text) (count : nat) (i : nat) : ostate :=
+  let count := Nat.max count 1 in
+  let e := line_end t i in
+  if Nat.eqb i e then mkO t i None
+  else let hi := Nat.min (i + count) e in
+       mkO (map_range (case_c CToggle) t i hi) (Nat.min hi (e - 1)) None.
+
+(** [count]r[c] : that many characters from the cursor become [c]; when the line has fewer, nothing happens.  The cursor
+    ends on the last one replaced. *)
+Definition run_replace (t : text) (c : N) (count : nat) (i : nat) : ostate :=
+  let count := Nat.max count 1 in
+  let e := line_end t i in
+  if Nat.ltb e (i + count) then mkO t i None
+  else mkO (map_range (fun _ => c) t i (i + count)) (i + count - 1) None.
+
+(** ** J: joining lines (Vim's [do_join] with 'nojoinspaces') *)
+Definition is_white (c : N) : bool := (c =? 32) || (c =? 9).
+Fixpoint drop_white (l : text) : text :=
+  match l with c :: r => if is_white c then drop_white r else l | [] => [] end.
+(** a text as its lines (separated, not terminated, by line breaks), and back *)
+Fixpoint lines_of (t : text) : list text :=
+  match t with
+  | [] => [[]]
+  | c :: r => if c =? nl then [] :: lines_of r
+              else match lines_of r with l :: ls => (c :: l) :: ls | [] => [[c]] end
+  end.
+Fixpoint unlines (ls : list text) : text :=
+  match ls with [] => [] | [l] => l | l :: r => l ++ nl :: unlines r end.
+Definition last_char (l : text) : option N := match rev l with c :: _ => Some c | [] => None end.
+
+(** the lines [ls] joined onto [acc]: each loses its leading blanks and gets one space in front - unless it is then empty,
+    starts with ")", nothing has been collected yet, or the line before it ended in a blank.  [col] is where the last of
+    them was attached. *)
+Fixpoint join_acc (acc : text) (col : nat) (e1 : option N) (ls : list text) : text * nat :=
+  match ls with
+  | [] => (acc, col)
+  | l :: r =>
+    let curr := drop_white l in
+    let sp := match curr with
+              | [] => false
+              | c :: _ => negb (c =? 41) && negb (Nat.eqb (length acc) 0)
+                          && negb (match e1 with Some 9%N => true | Some 32%N => true | _ => false end)
+              end in
+    join_acc (acc ++ (if sp then [32%N] else []) ++ curr) (length acc) (last_char curr) r
+  end.
+
+(** [count]J from cursor [i]: count (at least 2) lines, as many as there are when the count is 3 or more; on the last
+    line it fails *)
+Definition run_join (t : text) (count : nat) (i : nat) : ostate :=
+  let ls := lines_of t in
+  let k := length (filter (fun c => c =? nl) (firstn i t)) in          (* the cursor's line number *)
+  let avail := (length ls - k)%nat in
+  let n := Nat.max count 2 in
+  if Nat.leb avail 1
+  then (* on the last line J and 2J fail; a larger count is cut down to the one line there is: nothing to join, but
+          the cursor goes where that line "was attached", its start *)
+       mkO t (if Nat.leb 3 count then line_start_from t (Nat.min i (length t)) else i) None
+  else
+    let n := Nat.min n avail in
+    match skipn k ls with
+    | [] => mkO t i None
+    | first :: rest =>
+      let '(acc, col) := join_acc first 0 (last_char first) (firstn (n - 1) rest) in
+      let t' := unlines (firstn k ls ++ acc :: skipn (n - 1) rest) in
+      let s := line_start_from t (Nat.min i (length t)) in
+      mkO t' (s + Nat.min col (length acc - 1))%nat None
+    end.
+
 (** [P] of a register at the cursor (characterwise: before the cursor; linewise: above the cursor's line) *)
 Definition put_before (s : ostate) : text :=
   match o_reg s with
